@@ -329,11 +329,17 @@ class DiameterAssociation(object):
         self.lock.acquire()
         diameter_conn_logger.debug("Acquired DiameterAssociation lock")
 
+        #: Never block here: the DiameterAssociation lock is being held and 
+        #: the go ahead which brought us here may be a stale one.
         self.postprocess_recv_messages_lock.acquire()
-        msg = self.postprocess_recv_messages.get()
+        try:
+            msg = self.postprocess_recv_messages.get_nowait()
+        except queue.Empty:
+            msg = None
         self.postprocess_recv_messages_lock.release()
 
-        make_logging(msg)
+        if msg is not None:
+            make_logging(msg)
 
         self.postprocess_recv_messages_ready.clear()
         diameter_conn_logger.debug("Cleared go ahead for "\
@@ -348,13 +354,20 @@ class DiameterAssociation(object):
         while not self._stop_threads:
             if self.postprocess_recv_messages.empty():
                 self.postprocess_recv_messages_ready.wait()
+                self.postprocess_recv_messages_ready.clear()
                 diameter_conn_logger.debug("Got go ahead for "\
                                            "postprocess_recv_messages_ready")
-            else:
-                diameter_conn_logger.debug("No need to wait for go ahead for "\
-                                           "postprocess_recv_messages_ready")
-    
-            return self.get_postprocess_recv_message()
+
+                #: The go ahead may be a stale one (or a stop request): check 
+                #: again before picking a message up.
+                continue
+
+            diameter_conn_logger.debug("No need to wait for go ahead for "\
+                                       "postprocess_recv_messages_ready")
+
+            msg = self.get_postprocess_recv_message()
+            if msg is not None:
+                return msg
 
 
     def tracking_events(self) -> None:
